@@ -616,4 +616,14 @@ def packet_ir(text: str, qualified: str) -> str:
         if f is None or len(body) != 1 or not isinstance(body[0], ast.Return) or _Rec.dotted(body[0].value) is None:
             raise Unrecognised(f"{qualified}.{m}()")
         out.append(_Rec.dotted(body[0].value))
+    # `def write(self, writer): Cls.serialize(writer, self)`
+    w = _method(cls, "write")
+    body = [s for s in (w.body if w else []) if not (isinstance(s, ast.Expr) and isinstance(s.value, ast.Constant))]
+    ok = w is not None and len(body) == 1 and isinstance(body[0], ast.Expr) and isinstance(body[0].value, ast.Call)
+    if ok:
+        c = body[0].value
+        ok = _Rec.dotted(c.func) == qualified + ".serialize" and len(c.args) == 2 and _Rec.is_name(c.args[0], "writer") \
+            and _Rec.is_name(c.args[1], "self")
+    if not ok:
+        raise Unrecognised(f"{qualified}.write()")
     return " ".join(out)
